@@ -106,10 +106,20 @@ def run_case(case):
             logk = min(logk, rnd.choice([0, 1, 2, 3, 4]))
             eps = max(eps, scale * 10.0 ** (-logk - 2))
         lam = matref.spectrum(kind, n, 10.0**logk, gen, scale)
-        Q = matref.haar(n, gen)
+        structure = rnd.choice(["dense", "dense", "dense", "diagonal_unflagged", "permuted_diagonal", "block_diagonal"])
+        if structure == "dense" or n < 2:
+            Q = matref.haar(n, gen)
+        elif structure == "diagonal_unflagged":  # exactly diagonal input that is NOT flagged is_diagonal
+            Q = torch.eye(n, dtype=torch.float64)
+            lam = lam[torch.randperm(n, generator=gen)]
+        elif structure == "permuted_diagonal":
+            Q = torch.eye(n, dtype=torch.float64)[:, torch.randperm(n, generator=gen)]
+        else:
+            k_ = max(1, n // 2)
+            Q = torch.block_diag(matref.haar(k_, gen), matref.haar(n - k_, gen))
         tol_solver = 0.0
         exp_f32 = True
-        desc = {"solver": solver, "dtype": case["dtype"], "n": n, "kind": kind, "log10_kappa": logk, "scale": scale, "epsilon": eps}
+        desc = {"solver": solver, "dtype": case["dtype"], "n": n, "kind": kind, "structure": structure, "log10_kappa": logk, "scale": scale, "epsilon": eps}
         if solver in ("eig", "eig_stab"):
             r = rnd.choice(ROOTS)
             cfg = EigenConfig(enhance_stability=(solver == "eig_stab"))
